@@ -28,3 +28,103 @@ fn h_find_string_end_n(n: usize) {
 
 pub(crate) fn h_find_string_end_4() { h_find_string_end_n(4); }
 pub(crate) fn h_find_string_end_6() { h_find_string_end_n(6); }
+
+// ------------------------------------------------------------------ C03: tokenize_core and friends
+
+pub(crate) const TOK_ALPHA: &[u8] = b" \n\r/*\"\\0xag.-[";
+
+fn ttype_code(t: &A2lTokenType) -> u64 {
+    match t {
+        A2lTokenType::Identifier => 0,
+        A2lTokenType::Begin => 1,
+        A2lTokenType::End => 2,
+        A2lTokenType::Include => 3,
+        A2lTokenType::String => 4,
+        A2lTokenType::Number => 5,
+        A2lTokenType::Comment => 6,
+    }
+}
+
+/// post-conditions every successful tokenisation must satisfy (what the parser relies on)
+fn check_tokens(text: &str, tokens: &Vec<A2lToken>) {
+    let n = text.len();
+    let mut prev_end = 0usize;
+    let mut prev_line = 1u32;
+    vrt_observe_u64(tokens.len() as u64);
+    for t in tokens.iter() {
+        vrt_check(t.startpos < t.endpos, "C03 token range is non-empty");
+        vrt_check(t.endpos <= n, "C03 token range lies inside the text");
+        vrt_check(text.is_char_boundary(t.startpos) && text.is_char_boundary(t.endpos), "C03 token range is on char boundaries");
+        vrt_check(t.startpos >= prev_end, "C03 tokens do not overlap and are in text order");
+        vrt_check(t.line >= prev_line, "C03 token line numbers never decrease");
+        vrt_check(t.fileid == 0, "C03 fileid is propagated");
+        prev_end = t.endpos;
+        prev_line = t.line;
+        vrt_observe_u64(ttype_code(&t.ttype));
+        vrt_observe_u64(t.startpos as u64);
+        vrt_observe_u64(t.endpos as u64);
+        vrt_observe_u64(t.line as u64);
+    }
+}
+
+fn tok_core_text(text: String) {
+    match tokenize_core(String::from("f"), 0, &text) {
+        Ok(tokens) => check_tokens(&text, &tokens),
+        Err(_) => vrt_observe_u64(999),
+    }
+}
+
+fn tok_core_n(n: usize) {
+    tok_core_text(vrt_ascii_string(n, TOK_ALPHA));
+}
+
+pub(crate) fn h_tok_core_1() { tok_core_n(1); }
+pub(crate) fn h_tok_core_2() { tok_core_n(2); }
+pub(crate) fn h_tok_core_3() { tok_core_n(3); }
+pub(crate) fn h_tok_core_4() { tok_core_n(4); }
+pub(crate) fn h_tok_core_5() { tok_core_n(5); }
+
+fn tok_prefixed(prefix: &str, n: usize, alpha: &[u8]) {
+    let mut text = String::from(prefix);
+    text.push_str(&vrt_ascii_string(n, alpha));
+    tok_core_text(text);
+}
+
+/// every text that ends anywhere inside / after an A2ML block
+pub(crate) fn h_tok_a2ml_tail_0() { tok_prefixed("/begin A2ML", 0, b" "); }
+pub(crate) fn h_tok_a2ml_tail_1() { tok_prefixed("/begin A2ML", 1, b" \n\r/*endx\""); }
+pub(crate) fn h_tok_a2ml_tail_2() { tok_prefixed("/begin A2ML", 2, b" \n\r/*endx\""); }
+pub(crate) fn h_tok_a2ml_tail_3() { tok_prefixed("/begin A2ML", 3, b" \n\r/*endx\""); }
+pub(crate) fn h_tok_a2ml_tail_4() { tok_prefixed("/begin A2ML ", 4, b" \n\r/*endx"); }
+pub(crate) fn h_tok_a2ml_tail_5() { tok_prefixed("/begin A2ML x", 5, b" \n\r/*end"); }
+pub(crate) fn h_tok_include_tail_3() { tok_prefixed("/include ", 3, b" \n\"/\\a.0"); }
+pub(crate) fn h_tok_string_tail_4() { tok_prefixed("\"", 4, b" \n\"\\a"); }
+pub(crate) fn h_tok_comment_tail_4() { tok_prefixed("/*", 4, b" \n*/a"); }
+pub(crate) fn h_tok_number_tail_3() { tok_prefixed("0x", 3, b" 0afxg.-+"); }
+pub(crate) fn h_tok_keyword_tail_3() { tok_prefixed("/", 3, b"begind /*"); }
+
+/// unconstrained bytes (full byte range, must be valid UTF-8 to be a &str): no alphabet reduction
+fn tok_core_raw(n: usize) {
+    let v = sym_bytes(n);
+    match String::from_utf8(v) {
+        Ok(text) => tok_core_text(text),
+        Err(_) => {}
+    }
+}
+pub(crate) fn h_tok_core_raw_2() { tok_core_raw(2); }
+pub(crate) fn h_tok_core_raw_3() { tok_core_raw(3); }
+
+pub(crate) fn h_find_block_comment_end_5() {
+    let n = 5;
+    let v = sym_bytes(n);
+    let start = vrt_any_usize();
+    vrt_assume(start <= n);
+    match find_block_comment_end(&v, start) {
+        Ok(end) => {
+            vrt_check(end > start && end <= n, "find_block_comment_end: result inside the text");
+            vrt_check(end >= 2 && v[end - 1] == b'/' && v[end - 2] == b'*', "find_block_comment_end: result is one past */");
+            vrt_observe_u64(end as u64);
+        }
+        Err(()) => vrt_observe_u64(u64::MAX),
+    }
+}
